@@ -10,6 +10,7 @@ import (
 	"unicode/utf8"
 
 	"github.com/robfig/soy/data"
+	"github.com/robfig/soy/internal/jsescape"
 )
 
 // PrintDirective represents a transformation applied when printing a value.
@@ -124,7 +125,7 @@ func directiveEscapeUri(value data.Value, _ []data.Value) data.Value {
 }
 
 func directiveEscapeJsString(value data.Value, _ []data.Value) data.Value {
-	return data.String(template.JSEscapeString(value.String()))
+	return data.String(jsescape.String(value.String()))
 }
 
 func directiveJson(value data.Value, _ []data.Value) data.Value {
